@@ -396,17 +396,27 @@ void splinetable<Alloc>::write_fits(const std::string& filePath) const{
 	if (error != 0)
 		throw std::runtime_error(("CFITSIO failed to open "+filePath+" for writing").c_str());
 	
+	//closes the file if writing is abandoned because of an error
 	struct fits_cleanup{
 		fitsfile* fits;
 		fits_cleanup(fitsfile* f):fits(f){}
 		~fits_cleanup(){
-			int error=0;
-			fits_close_file(fits, &error);
-			fits_report_error(stderr, error);
+			if(fits){
+				int error=0;
+				fits_close_file(fits, &error);
+				fits_report_error(stderr, error);
+			}
 		}
 	} cleanup(fits);
 	
 	write_fits_core(fits);
+	
+	//Buffered data only reach the file when it is closed, so closing can fail
+	//(e.g. because the disk is full) and that failure must be reported.
+	cleanup.fits=NULL;
+	fits_close_file(fits, &error);
+	if (error != 0)
+		throw std::runtime_error("CFITSIO failed to finish writing "+filePath+": Error "+std::to_string(error));
 }
 	
 template<typename Alloc>
@@ -423,18 +433,29 @@ std::pair<void*,size_t> splinetable<Alloc>::write_fits_mem() const{
 	
 	try{
 		fits_create_memfile(&fits, &buf, &memsize, FITS_blocksize, realloc, &error);
+		if (error != 0)
+			throw std::runtime_error("CFITSIO failed to create memory 'file': Error "+std::to_string(error));
 		
+		//closes the file if writing is abandoned because of an error
 		struct fits_cleanup{
 			fitsfile* fits;
 			fits_cleanup(fitsfile* f):fits(f){}
 			~fits_cleanup(){
-				int error=0;
-				fits_close_file(fits, &error);
-				fits_report_error(stderr, error);
+				if(fits){
+					int error=0;
+					fits_close_file(fits, &error);
+					fits_report_error(stderr, error);
+				}
 			}
 		} cleanup(fits);
 		
 		write_fits_core(fits);
+		
+		//the final blocks are only flushed to the buffer on closing
+		cleanup.fits=NULL;
+		fits_close_file(fits, &error);
+		if (error != 0)
+			throw std::runtime_error("CFITSIO failed to finish writing: Error "+std::to_string(error));
 	}catch(std::exception& ex){
 		throw std::runtime_error("Failed to write FITS memory 'file': \n"+std::string(ex.what()));
 	}
